@@ -935,6 +935,14 @@ where
     // TODO(maybe): Use !job_futures.is_empty() instead of server.is_running() in
     // the above loop.
     job_futures.fold((), |_, _| future::ready(())).await;
+    // Our parent accounts for one token when we exit, so we must not exit
+    // without one.  That can happen after a job that was started on a borrowed
+    // (cheat) token has been reaped, or after the compensation for a cheating
+    // child was consumed.  (The process that owns the jobserver gives up its
+    // token in its final self-check.)
+    if !server.is_top_level() && !server.has_token() {
+        server.ensure_token_or_cheat("exit", &mut cheat).await?;
+    }
     result.replace(Ok(()))
 }
 
